@@ -46,7 +46,8 @@ def run(rep: Report) -> None:
                     label = (f"{st} compact={compact}{' ideal-origin' if ideal else ''}"
                              f"{' (second step and compilation, other T)' if (variant == 'merge' and compact == 2 and not ideal) else ''}"
                              f"{' (delta, phi not given)' if (variant == 'merge' and compact == 1 and not ideal) else ''}"
-                             f"{' parameters' if with_params else ''}{'' if variant == 'merge' else ' network=' + variant}")
+                             f"{' parameters' if with_params else ''}{'' if variant == 'merge' else ' network=' + variant}"
+                             f"{' (clamped initial states)' if variant == 'bifurcation' else ''}")
                     net = CP.build_network(prog, st, vsl=False, variant=variant)
                     w = net.w
                     if ideal:
@@ -55,7 +56,11 @@ def run(rep: Report) -> None:
                         net.origins[0] = o
                     use_delta = not (variant == "merge" and compact == 1 and not ideal)
                     try:
-                        CP.run_step(prog, net, delta=use_delta, phi=use_delta)
+                        # (on the bifurcation network the initial states are clamped: the states the
+                        # update uses are max(0, symbol), not the function's arguments themselves)
+                        pflags = ["positive_init_density", "positive_init_speed", "positive_init_queue"] \
+                            if variant == "bifurcation" else None
+                        CP.run_step(prog, net, flags=pflags, delta=use_delta, phi=use_delta)
                         if variant == "merge" and compact == 2 and not ideal:
                             # a second step and a second compilation on the same engine object:
                             # the flows must be those of the most recent step
